@@ -677,7 +677,7 @@ func c07TextMutants(r *Rng, b []byte, others [][]byte, budget int) []c07Mutant {
 			for j < len(b) && isDigit(b[j]) {
 				j++
 			}
-			for _, run := range []string{"99999999999999999999999", "00000000000000000000001", "18446744073709551616", "9223372036854775808", "4294967296", "65536", "256", "-1", "+1", ""} {
+			for _, run := range []string{"99999999999999999999999", "00000000000000000000001", "18446744073709551616", "9223372036854775808", "9223372036854775806", "4294967296", "1073741824", "268435456", "16777216", "65536", "256", "-1", "+1", ""} {
 				run := run
 				sys = append(sys, func() c07Mutant {
 					m := append(append([]byte{}, b[:i]...), run...)
